@@ -395,6 +395,58 @@ def gen_widerb_history(rng):
         emit("bflush 0")
     emit("end")
 
+def gen_kids_history(rng, k=None, ns=None):
+    """tickit_window_get_children into arrays shorter than, as long as and longer than the list of children (0 included),
+    on the root and on a nested window, between restacking, closing and dropping children"""
+    emit(rng.choice(["new 8 20", "newmock 8 20"]))
+    if k is None: k = rng.randint(0, 6)
+    for i in range(k): emit("win 0 %d 0 1 5 %d" % (i, rng.choice([0, 0, 0, 1, 2])))
+    sub = 0
+    if k and rng.random() < 0.5:
+        sub = rng.randint(1, 3)
+        for i in range(sub): emit("win 1 0 %d 1 1 0" % i)
+    nw = 1 + k + sub
+    if ns is not None:
+        for n in ns: emit("kids 0 %d" % n)
+    else:
+        for _ in range(rng.randint(2, 8)):
+            r = rng.random()
+            if r < 0.6:
+                w = rng.choice([0, 0, 0, 1, rng.randrange(nw)])
+                cnt = k if w == 0 else sub if w == 1 else 0
+                emit("kids %d %d" % (w, rng.choice([0, max(cnt - 1, 0), cnt, cnt + 1, rng.randint(0, cnt + 2)])))
+            elif r < 0.75 and nw > 1: emit("%s %d" % (rng.choice(["raise", "raisefront", "lower", "lowerback"]), rng.randrange(1, nw)))
+            elif r < 0.85 and nw > 1: emit("unref %d" % rng.randrange(1, nw))
+            elif r < 0.92 and nw > 1: emit("close %d" % rng.randrange(1, nw))
+            else: emit("flush")
+    emit("end")
+
+def gen_procwatch_history(rng, ops=None):
+    """process watches of the toplevel instance (default event loop) on children that have exited already (delivery deferred
+    to the next loop turn) or are still running: cancelled before or after the turn, left to fire, dropped with the instance"""
+    emit("newtop 4 8")
+    if ops is None:
+        ops = []; n = 0
+        for _ in range(rng.randint(2, 7)):
+            r = rng.random()
+            if r < 0.35 and n < 5: ops.append("iproc %d" % rng.choice([1, 1, 0])); n += 1
+            elif r < 0.60 and n: ops.append("iproccancel %d" % rng.randrange(n))
+            elif r < 0.85: ops.append("itick")
+            elif r < 0.93: ops.append("ilater")
+            else: ops.append("itimer 0")
+        ops.append("itick")
+    for o in ops: emit(o)
+    if rng.random() < 0.5: emit("unref 0"); emit("iunref")
+    emit("end")
+
+TEXTF_LENS = list(range(250, 261)) + list(range(510, 515)) + list(range(1022, 1027))
+def gen_textf_history(rng, n, pre):
+    """tickit_renderbuffer_textf_at whose formatted text is as long as the scratch block (256 bytes at first, doubled until it
+    fits) or a byte or two off: on a fresh render buffer, or after shorter / longer texts grew the block"""
+    emit("new 2 40"); emit("rb 1 40")
+    for m in pre: emit("btextf 0 0 0 %s" % ("63" * m))
+    emit("btextf 0 0 0 %s" % ("62" * n)); emit("bflush 0"); emit("btextf 0 0 3 %s" % ("64" * n)); emit("end")
+
 def gen_timers_history(rng):
     """timers and deferred calls of the toplevel instance that register further timers and deferred calls while they run:
     tickit_watch_timer_at_tv for an instant of the harness's clock that has passed (it becomes the head of the queue the
@@ -1195,11 +1247,29 @@ if a.tier == "exhaustive":
             for term in ("new", "newmock"):
                 emit("%s 2 200" % term); emit("rb 1 200"); emit("bhline 0 0 %d %d" % (start, start + n - 1)); emit("bflush 0")
                 emit("bhline 0 0 0 %d" % (n + 1)); emit("bflush 0"); emit("end"); nwr += 1
-    info = {"keychain_histories": nkc, "iowatch_histories": nio_h, "wide_linerun_histories": nwr, "termout_histories": no, "timer_callback_histories": nwt, "drag_histories": ndr, "mock_display_histories": nm, "terminput_histories": nt, "toplevel_histories": ni, "mock_resize_histories": nr, "sigwinch_histories": nsw}
+    # tickit_renderbuffer_textf_at whose formatted text is as long as the scratch block (256 at first, doubled as needed) or a
+    # byte or two off: on a fresh render buffer, and after shorter / longer texts grew the block
+    ntf = 0
+    for n in TEXTF_LENS:
+        for pre in ([], [300], [n - 1], [600, 512], [1030]):
+            gen_textf_history(rng, n, pre); ntf += 1
+    # tickit_window_get_children on a root window of 0..5 children with every array length 0..children+1
+    nkd = 0
+    for k in range(0, 6):
+        gen_kids_history(rng, k, list(range(0, k + 2))); nkd += 1
+    # process watches: all sequences of <=3 operations over {watch an exited child, watch a running child, cancel the first,
+    # cancel the second, one loop turn}, followed by a loop turn
+    npw = 0
+    import itertools
+    for ln in range(1, 4):
+        for seq in itertools.product(["iproc 1", "iproc 0", "iproccancel 0", "iproccancel 1", "itick"], repeat=ln):
+            if not seq[0].startswith("iproc "): continue
+            gen_procwatch_history(rng, list(seq) + ["itick"]); npw += 1
+    info = {"process_watch_histories": npw, "get_children_histories": nkd, "textf_scratch_histories": ntf, "keychain_histories": nkc, "iowatch_histories": nio_h, "wide_linerun_histories": nwr, "termout_histories": no, "timer_callback_histories": nwt, "drag_histories": ndr, "mock_display_histories": nm, "terminput_histories": nt, "toplevel_histories": ni, "mock_resize_histories": nr, "sigwinch_histories": nsw}
     info.update({"exhaustive_bound": "all sequences of <=3 (and a seed-selected quarter of the length-4) operations over a 13-letter lifecycle alphabet on root>1>2, 3 sibling of 1, one pen, one self-unref key handler; each followed by flush and end; tickit_mockterm_get_display_text with every buffer length (short of the known exact-fill overflow) for every span of five fixed lines of multi-byte, double-width and combining cells; all sequences of <=3 operations over a 12-letter alphabet of terminal input calls with a quitting key handler on the terminal, and over a 14-letter alphabet of toplevel-instance calls on root>1>2; tickit_mockterm_resize from 3x4 to every size of 1..5 x 1..6 and on to a second size; all sequences of <=2 (and half of those of 3) operations over a 12-letter alphabet of observe/stop/destroy/SIGWINCH on four observing terminals; all sequences of <=3 (and a third of those of 4) operations over a 10-letter alphabet of output-buffer lengths, printing, flushing, cursor movement and the 19-parameter pen on an xterm terminal with both capabilities; all sequences of <=3 operations over a 10-letter alphabet of timers and deferred calls whose callbacks register further (past, present, future) timers and deferred calls; 576 drags on root>1>2 (8 handler behaviours of the source x bound before/after the press x claiming or not x 6 ways of dropping the chain afterwards x 3 continuations); 324 key dispatches on root>1>2>3 focused on 3 (handler on 1/2/3 hiding, closing or showing 1/2/3, passing or keeping the key, chain shown or hidden at 1 or 2); 144 histories of I/O watches readable in one poll turn whose first callback registers 0..5 further watches and cancels itself or a neighbour; runs of 84..87 and 171..172 LINE cells flushed from a 200-column render buffer to the xterm and the mock terminal", "histories": nh})
 else:
     scale = 1 if a.tier == "quick" else 5
-    fams = {"tree": 700, "handlers": 700, "foreign": 400, "objects": 400, "pens": 400, "copyout": 400, "terminput": 500, "toplevel": 500, "mockresize": 360, "sigwinch": 400, "drag": 400, "timers": 300, "termout": 400, "keychain": 300, "iowatch": 300, "widerb": 60}
+    fams = {"tree": 700, "handlers": 700, "foreign": 400, "objects": 400, "pens": 400, "copyout": 400, "terminput": 500, "toplevel": 500, "mockresize": 360, "sigwinch": 400, "drag": 400, "timers": 300, "termout": 400, "keychain": 300, "iowatch": 300, "widerb": 60, "textf": 42, "kids": 150, "procwatch": 120}
     if a.families:
         fams = {k: v for k, v in fams.items() if k in a.families.split(",")}
     for fam, n in fams.items():
@@ -1220,6 +1290,9 @@ else:
             elif fam == "keychain": gen_keychain_history(rng)
             elif fam == "iowatch": gen_iowatch_history(rng)
             elif fam == "widerb": gen_widerb_history(rng)
+            elif fam == "kids": gen_kids_history(rng)
+            elif fam == "procwatch": gen_procwatch_history(rng)
+            elif fam == "textf": gen_textf_history(rng, TEXTF_LENS[_ % len(TEXTF_LENS)], [] if _ < len(TEXTF_LENS) else rng.choice([[300], [TEXTF_LENS[_ % len(TEXTF_LENS)] - 1], [600, 512], [1030], [257]]))
             else: gen_copyout_history(rng)
             fam_count[fam] = fam_count.get(fam, 0) + 1
     info = {"histories": sum(fam_count.values()), "families": fam_count, "mresize_combinations": resize_mix}
